@@ -573,13 +573,32 @@ def fingerprint_pair(case):
     return res
 
 
+class _CountingLogger:
+    def __init__(self):
+        self.n = 0
+
+    def warning(self, *a, **k):
+        self.n += 1
+
+    def __getattr__(self, name):
+        return lambda *a, **k: None
+
+
 def probe_decl(case):
-    """case: dict(css=one declaration) -> dict(yields=number of (name, value) pairs, names=[...]) ; raises on a crash"""
+    """case: dict(css=one declaration) -> dict(yields=number of (name, value) pairs, names=[...], warned=number of
+    warnings logged) ; raises on a crash"""
     import tinycss2
-    r = _pp(tinycss2.parse_blocks_contents(case['css']))
+    from weasyprint.css import validation
+    counter = _CountingLogger()
+    saved = validation.LOGGER
+    validation.LOGGER = counter
+    try:
+        r = _pp(tinycss2.parse_blocks_contents(case['css']))
+    finally:
+        validation.LOGGER = saved
     if r[0] != 'ok':
         raise RuntimeError('declaration crashes: %s' % (r[1],))
-    return dict(yields=len(r[1]), names=[n for n, _, _ in r[1]])
+    return dict(yields=len(r[1]), names=[n for n, _, _ in r[1]], warned=counter.n)
 
 
 def render_pair(case):
@@ -603,17 +622,6 @@ def render_pair(case):
 
 
 # ------------------------------------------------------------------------------------------ shared Pending
-
-class _CountingLogger:
-    def __init__(self):
-        self.n = 0
-
-    def warning(self, *a, **k):
-        self.n += 1
-
-    def __getattr__(self, name):
-        return lambda *a, **k: None
-
 
 def _pending_of(name, value):
     """the Pending object preprocess_declarations makes for `name: value`, and the longhands that share it"""
